@@ -3,6 +3,7 @@ import Driver.C03
 import Driver.C04
 import Driver.C05
 import Driver.C06
+import Driver.C07
 import Driver.C09
 import Driver.C10
 import Driver.C11
@@ -24,6 +25,7 @@ def dispatch (line : String) : String :=
   | "C04" :: args => Driver.C04.handle args
   | "C05" :: args => Driver.C05.handle args
   | "C06" :: args => Driver.C06.handle args
+  | "C07" :: args => Driver.C07.handle args
   | "C09" :: args => Driver.C09.handle args
   | "C10" :: args => Driver.C10.handle args
   | "C11" :: args => Driver.C11.handle args
